@@ -72,14 +72,26 @@ var (
 )
 
 func WaitCleanersIdle(d time.Duration) bool {
-	deadline := time.Now().Add(d)
-	for cleanRan.Load() < cleanLaunched.Load() {
-		if time.Now().After(deadline) {
-			return false
+	return WaitFor(d, func() bool { return cleanRan.Load() >= cleanLaunched.Load() })
+}
+
+// WaitFor polls cond until it holds or d has passed - d of time during which this process was actually running
+// (see the heartbeat below): on an overloaded machine the limit stretches instead of producing a verdict.
+func WaitFor(d time.Duration, cond func() bool) bool {
+	for attempt := 0; attempt < 60; attempt++ {
+		b0, t0 := beats.Load(), time.Now()
+		for time.Since(t0) < d {
+			if cond() {
+				return true
+			}
+			time.Sleep(150 * time.Microsecond)
 		}
-		time.Sleep(200 * time.Microsecond)
+		expected := float64(time.Since(t0)/time.Millisecond) / 1.2
+		if float64(beats.Load()-b0) >= 0.6*expected {
+			break
+		}
 	}
-	return true
+	return cond()
 }
 
 var (
@@ -212,14 +224,54 @@ func (nd *Node) Start() (Yield, error) {
 
 const yieldTimeout = 20 * time.Second
 
+// heartbeat: one tick per millisecond while this process gets CPU time. A wait for a yield point that times out
+// while the heartbeat itself was (nearly) standing still says nothing about the sync loop - the machine is
+// overloaded, or the runtime had the world stopped - and the wait goes on (the driver's own time limit ends a
+// process that never comes back: inconclusive, not a violation).
+var beats atomic.Int64
+
+func init() {
+	go func() {
+		for {
+			time.Sleep(time.Millisecond)
+			beats.Add(1)
+		}
+	}()
+}
+
 func (nd *Node) wait() (Yield, error) {
-	select {
-	case y := <-nd.yields:
-		nd.At = y
-		nd.parked = !y.Done
-		return y, nil
-	case <-time.After(yieldTimeout):
-		return Yield{}, fmt.Errorf("instance %s did not reach a yield point within %v (stuck)\n%s", nd.Name, yieldTimeout, goroutinesOf("lightningstream/syncer"))
+	for attempt := 0; ; attempt++ {
+		b0, t0 := beats.Load(), time.Now()
+		select {
+		case y := <-nd.yields:
+			nd.At = y
+			nd.parked = !y.Done
+			return y, nil
+		case <-time.After(yieldTimeout):
+		}
+		expected := float64(time.Since(t0)/time.Millisecond) / 1.2
+		if float64(beats.Load()-b0) < 0.6*expected && attempt < 60 {
+			continue // starved of CPU: that time does not count
+		}
+		return Yield{}, fmt.Errorf("instance %s did not reach a yield point within %v (stuck; the process itself was running: %d heartbeats)\n%s", nd.Name, yieldTimeout, beats.Load()-b0, goroutinesOf("lightningstream/syncer"))
+	}
+}
+
+// Quiet reports whether no Sync goroutine of this node is running any more.
+func (nd *Node) Quiet() bool {
+	nd.mu.Lock()
+	defer nd.mu.Unlock()
+	return !nd.running
+}
+
+// CloseEnv closes the node's LMDB unless a Sync goroutine is still running in it (after a wait that timed out):
+// closing an environment that is in use crashes the process in C code; a leaked scratch environment does not.
+func (nd *Node) CloseEnv() {
+	for i := 0; i < 2000 && !nd.Quiet(); i++ {
+		time.Sleep(time.Millisecond)
+	}
+	if nd.Quiet() {
+		nd.Env.Close()
 	}
 }
 
@@ -285,15 +337,10 @@ func (nd *Node) Downloads() (done, failed int) {
 // WaitDownload waits until the number of finished download attempts (success
 // or error) exceeds the given previous count.
 func (nd *Node) WaitDownload(prevDone, prevErr int, d time.Duration) bool {
-	deadline := time.Now().Add(d)
-	for time.Now().Before(deadline) {
+	return WaitFor(d, func() bool {
 		a, b := nd.Downloads()
-		if a+b > prevDone+prevErr {
-			return true
-		}
-		time.Sleep(100 * time.Microsecond)
-	}
-	return false
+		return a+b > prevDone+prevErr
+	})
 }
 
 func goroutinesOf(substr string) string {
